@@ -438,7 +438,12 @@ impl P {
                 self.branch(t);
                 if let Some(e) = e {
                     self.kw("else");
-                    self.branch(e);
+                    if matches!(**e, RStmt::If(..)) {
+                        // `else if` chains stay on the nesting level of the first `if`
+                        self.stmt(e);
+                    } else {
+                        self.branch(e);
+                    }
                 }
                 self.close(s);
             }
